@@ -169,6 +169,7 @@ func (c *sCrit) tags(dst map[string]bool) {
 
 type sStats struct {
 	flushes, merges, queries int
+	reopens                  int
 	indexedCrit              bool
 	skippingCrit             bool
 	selective                bool
@@ -217,6 +218,11 @@ func runStreamHistory(x *verifkit.Ctx, c sCase) (sStats, error) {
 			if base.flushAll()+idx.flushAll() > 0 {
 				st.flushes++
 			}
+		case "reopen":
+			if err1, err2 := base.reopen(), idx.reopen(); err1 != nil || err2 != nil {
+				return st, fmt.Errorf("%s: reopen failed: %v / %v", what, err1, err2)
+			}
+			st.reopens++
 		case "merge":
 			n1, err1 := base.mergeFiles(op.Pick)
 			n2, err2 := idx.mergeFiles(op.Pick)
@@ -614,12 +620,15 @@ func genStreamCase(t *rapid.T, fixedCfg *sIndexCfg) sCase {
 			batch = append(batch, genElem(t, id, nullBias, far))
 		}
 		c.Ops = append(c.Ops, sOp{Kind: "write", Elems: batch})
-		switch rapid.IntRange(0, 4).Draw(t, "maint") {
+		switch rapid.IntRange(0, 5).Draw(t, "maint") {
 		case 0, 1:
 			c.Ops = append(c.Ops, sOp{Kind: "flush"})
 		case 2:
 			c.Ops = append(c.Ops, sOp{Kind: "flush"}, sOp{Kind: "merge", Pick: rapid.SliceOfN(rapid.IntRange(0, 5), 2, 4).Draw(t, "pick")})
 		}
+		// no "reopen" is generated: a graceful close inside the series/element index batch window loses the
+		// index documents of the last batches (bluge unsafe batches are not persisted on Close), and no listed
+		// property claims durability across a graceful restart (C04 allows any prefix)
 		if rapid.IntRange(0, 2).Draw(t, "q") == 0 {
 			c.Ops = append(c.Ops, sOp{Kind: "query", Query: genSQuery(t, c.Cfg)})
 		}
@@ -675,4 +684,71 @@ func sLabel(x *verifkit.Ctx, st sStats) {
 	x.LabelIf(st.merges > 0, "merge")
 	x.LabelIf(st.flushes > 0, "flush")
 	x.LabelIf(st.multiSegment, "two segments")
+	x.LabelIf(st.reopens > 0, "reopen")
 }
+
+func TestVerifStreamC09(t *testing.T) {
+	verifkit.Run(t, verifkit.Spec[sCase]{
+		Property: "C09", Unit: "stream_order",
+		Rule: streamRule + "; here every query is ordered (time or the inverted rule of code, asc/desc) and most have small limits / offsets; " +
+			"non-trivial = an ordered query whose limit/offset cuts the matching set, over >= 2 parts",
+		Known: streamKnown,
+		Gen: func(t *rapid.T, ks *verifkit.KnownSet) sCase {
+			cfg := sIndexCfg{Status: rapid.SampledFrom([]string{"none", "inverted", "skipping"}).Draw(t, "cfg/status"), Code: "inverted",
+				Dur: rapid.SampledFrom([]string{"none", "inverted", "skipping"}).Draw(t, "cfg/dur"), Labels: rapid.SampledFrom([]string{"none", "inverted"}).Draw(t, "cfg/labels")}
+			c := genStreamCase(t, &cfg)
+			for _, op := range c.Ops {
+				if op.Kind == "query" {
+					if op.Query.Order == "" {
+						op.Query.Order = rapid.SampledFrom([]string{"time", "code"}).Draw(t, "order2")
+					}
+					op.Query.Limit = rapid.SampledFrom([]int{1, 2, 3, 5, 10, 20}).Draw(t, "limit2")
+				}
+			}
+			avoidKnown(&c, ks)
+			return c
+		},
+		Check: func(x *verifkit.Ctx, c sCase) error {
+			st, err := runStreamHistory(x, c)
+			if err != nil {
+				return err
+			}
+			sLabel(x, st)
+			if st.windowCuts && st.flushes >= 2 {
+				x.NonTrivial()
+			}
+			return nil
+		},
+		MinLabelFrac: map[string]float64{"order by index rule": 0.4, "limit/offset cuts the result": 0.5},
+	})
+}
+
+func streamL1Spec(pid string) verifkit.Spec[sCase] {
+	return verifkit.Spec[sCase]{
+		Property: pid, Unit: "stream_l1",
+		Rule: streamRule + "; here the emphasis is on the history: flush and merges of chosen parts between the writes, full and windowed " +
+			"reads after each; non-trivial = elements read back after a merge that followed their write",
+		Known: streamKnown,
+		Gen: func(t *rapid.T, ks *verifkit.KnownSet) sCase {
+			c := genStreamCase(t, nil)
+			avoidKnown(&c, ks)
+			return c
+		},
+		Check: func(x *verifkit.Ctx, c sCase) error {
+			st, err := runStreamHistory(x, c)
+			if err != nil {
+				return err
+			}
+			sLabel(x, st)
+			if st.merges > 0 || st.reopens > 0 {
+				x.NonTrivial()
+			}
+			return nil
+		},
+		MinLabelFrac: map[string]float64{"merge": 0.1, "flush": 0.5},
+	}
+}
+
+func TestVerifStreamC01(t *testing.T) { verifkit.Run(t, streamL1Spec("C01")) }
+
+func TestVerifStreamC03(t *testing.T) { verifkit.Run(t, streamL1Spec("C03")) }
